@@ -25,7 +25,7 @@ MIXTURES = {
 DIL_UNITS = ['M', 'mM', 'm', 'mol/L', 'mmol/mL', 'g/L', 'g/mL', 'g/g', 'g/kg', 'mol/mol', 'L/L', 'mL/L', '%w/w', '%v/v', '%w/v',
              'mg/10 mL', 'umol/10 uL']
 FACTORS = [F(1, 10), F(1, 2), F(9, 10), F(1), F(11, 10), F(2)]
-CAPS = ['inf', 'ample', 'just-enough', 'just-short']
+CAPS = ['inf', 'ample', 'just-enough', 'just-short', 'exact']
 FILL_UNITS = ['L', 'mL', 'uL', 'nL', 'dL', 'g', 'mg', 'ug', 'kg', 'mol', 'mmol', 'umol', 'nmol']
 FILL_FACTORS = [F(1, 2), F(1), F(3, 2), F(3)]
 
@@ -78,7 +78,7 @@ def cap_string(pp, needed_L, cap):
     """Capacity relative to the volume the result needs."""
     if cap == 'inf':
         return 'inf L'
-    k = {'ample': F(10), 'just-enough': F(1001, 1000), 'just-short': F(999, 1000)}[cap]
+    k = {'ample': F(10), 'just-enough': F(1001, 1000), 'just-short': F(999, 1000), 'exact': F(1)}[cap]
     return f"{float(needed_L * k * 1000):.12g} mL"
 
 
@@ -94,6 +94,55 @@ def only_solvent_increased(before, after, solvent):
 
 
 def run_spec(sp):
+    vs, cls = run_spec_direct(sp)
+    if vs or cls == ('skip',) or sp['cap'] not in ('inf', 'just-short'):
+        return vs, cls
+    return via_recipe(sp, cls)
+
+
+def via_recipe(sp, cls):
+    """The same request as a recipe step (uses, dilute / fill_to, bake): same outcome, same container."""
+    pp = _G['pp']
+    c, call_args, direct = _G['last']
+    env.clear_caches(pp)
+    fp = e1.exact_obj(c)
+    case = {'vidx': _G['vidx'], 'spec': sp}
+    what = f"recipe.{sp['op']}(Container({sp['mix']}, cap={sp['cap']}), {', '.join(getattr(a, 'name', repr(a)) for a in call_args)})"
+    phase = 'add'
+    try:
+        r = pp.Recipe()
+        r.uses(c)
+        getattr(r, sp['op'])(c, *call_args)
+        phase = 'bake'
+        got = r.bake()['C']
+        outcome = 'returned'
+    except ValueError as e:
+        got, outcome = e, 'ValueError'
+    except Exception as e:  # noqa
+        got, outcome = e, type(e).__name__
+    feat = f"{sp['op']},via=recipe"
+    if e1.exact_obj(c) != fp:
+        return [V(f"Recipe.{sp['op']} | argument-mutated | {feat}", f"{what} modified the declared container", case)], cls
+    want = 'returned' if direct is not None else 'ValueError'
+    if cls[0] == 'either' and outcome in ('returned', 'ValueError'):
+        # on a feasibility boundary (target equal to the current value, brim-full vessels) the recipe's acceptance pre-check
+        # and the direct call may fall on different sides; a refusal must still be a ValueError
+        if outcome == 'ValueError' or direct is None:
+            return [], cls + ('recipe-' + outcome,)
+    elif outcome != want:
+        return [V(f"Recipe.{sp['op']} | outcome-differs-from-direct | {feat},direct={want},recipe={outcome},at={phase}",
+                  f"{what}: the direct call {'returns' if direct is not None else 'raises ValueError'}, the recipe "
+                  f"{'returns' if outcome == 'returned' else f'raises {outcome} ({got}) when the step is ' + ('added' if phase == 'add' else 'baked')}",
+                  case, want, outcome)], cls
+    from .. import e2
+    d = e2.same_object(pp, got, direct) if direct is not None else None
+    if d:
+        return [V(f"Recipe.{sp['op']} | result-differs-from-direct | {feat}",
+                  f"{what}: baked {e1.contents_key(got, 9)}, direct {e1.contents_key(direct, 9)}: {d}", case)], cls
+    return [], cls + ('recipe-' + outcome,)
+
+
+def run_spec_direct(sp):
     pp, vidx = _G['pp'], _G['vidx']
     subs = e1.substances(pp, vidx)
     contents = [(subs[n], q) for n, q in MIXTURES[sp['mix']]]
@@ -121,7 +170,14 @@ def run_spec(sp):
         if f >= 1 and sp['cap'] != 'inf':
             return [], ('skip',)
         try:
-            c = pp.Container('C', cap_string(pp, needed if f < 1 else V0, sp['cap']), contents)
+            if sp['cap'] == 'exact':
+                # a vessel whose capacity is exactly the volume that the implementation itself reports for the diluted
+                # solution. Filling a vessel to the brim is allowed, but whether it is accepted is DON'T-CARE: the tree's
+                # pre-check and its result volume are two different float sums and disagree in the last digit for some
+                # inputs (42 classes of the thorough grid). What is judged is the result when the call is accepted.
+                c = pp.Container('C', f"{probe.dilute(solute, cstr, solvent).volume!r} {pp.config.volume_storage_unit}", contents)
+            else:
+                c = pp.Container('C', cap_string(pp, needed if f < 1 else V0, sp['cap']), contents)
         except ValueError:
             return [], ('skip',)          # the capacity class does not even hold the mixture (x <= 0: nothing to add)
         if f > 1:
@@ -129,7 +185,7 @@ def run_spec(sp):
         elif f == 1:
             expect = 'either'
         else:
-            expect = 'refuse' if sp['cap'] == 'just-short' else 'accept'
+            expect = 'refuse' if sp['cap'] == 'just-short' else 'either' if sp['cap'] == 'exact' else 'accept'
         if float(target) < 1e3 * 10.0 ** -pp.config.internal_precision:
             # the parsed target is rounded to 10^-precision in base units: below a thousand resolutions (e.g. 2.5e-11 mol/g for
             # 25 nmol/kg) the request itself is only defined to > 0.1 %, and may even round to zero
@@ -138,8 +194,10 @@ def run_spec(sp):
         feat = f"dilute,mix={sp['mix']},solvent-present={int(solvent in probe.contents)}"
         env.clear_caches(pp)
         fp = e1.exact_obj(c)
+        _G['last'] = (c, (solute, cstr, solvent), None)
         try:
             r = c.dilute(solute, cstr, solvent)
+            _G['last'] = (c, (solute, cstr, solvent), r)
         except ValueError as e:
             if expect == 'accept':
                 return [V(f"Container.dilute | refused-feasible | {feat}", f"{call} is reachable but raised ValueError: {e}",
@@ -183,7 +241,10 @@ def run_spec(sp):
     if f <= 1 and sp['cap'] != 'inf':
         return [], ('skip',)
     try:
-        c = pp.Container('C', cap_string(pp, needed if f > 1 else V0, sp['cap']), contents)
+        if sp['cap'] == 'exact':
+            c = pp.Container('C', f"{probe.fill_to(solvent, qstr).volume!r} {pp.config.volume_storage_unit}", contents)
+        else:
+            c = pp.Container('C', cap_string(pp, needed if f > 1 else V0, sp['cap']), contents)
     except ValueError:
         return [], ('skip',)
     if nothing_measured:
@@ -193,13 +254,15 @@ def run_spec(sp):
     elif f == 1:
         expect = 'either'
     else:
-        expect = 'refuse' if sp['cap'] == 'just-short' else 'accept'
+        expect = 'refuse' if sp['cap'] == 'just-short' else 'either' if sp['cap'] == 'exact' else 'accept'
     call = f"Container({sp['mix']}, cap={sp['cap']}).fill_to({sp['solvent']}, {qstr!r})"
     feat = f"fill_to,unit={base},enzyme-present={int(any(s.is_enzyme() for s in probe.contents))},solvent-kind={rsv.kind}"
     env.clear_caches(pp)
     fp = e1.exact_obj(c)
+    _G['last'] = (c, (solvent, qstr), None)
     try:
         r = c.fill_to(solvent, qstr)
+        _G['last'] = (c, (solvent, qstr), r)
     except ValueError as e:
         if expect == 'accept':
             return [V(f"Container.fill_to | refused-feasible | {feat}", f"{call} fits but raised ValueError: {e}", case,
@@ -229,7 +292,9 @@ def run_spec(sp):
 
 def run(col):
     pp = env.load()
-    col.rule = ("7 mixture classes (binary, solvent absent, ternary with a second liquid / second solid, enzyme bystander, liquid "
+    col.rule = ("every request with an unlimited or a just-too-small vessel is also made as a recipe step (uses, dilute / "
+                "fill_to, bake): same outcome, same container as the direct call. " +
+                "7 mixture classes (binary, solvent absent, ternary with a second liquid / second solid, enzyme bystander, liquid "
                 "solute, solids only) x solute x solvent (present / other) x 17 concentration spellings x target factors "
                 "{0.1, 0.5, 0.9, 1, 1.1, 2} x current x capacity {inf, ample, just enough, just short}; fill_to: 10 unit "
                 "spellings x {0.5, 1, 1.5, 3} x current x capacities x solvent {water, other liquid, enzyme by mass}. Targets are "
@@ -248,9 +313,11 @@ def run(col):
         for sp, (vs, oc) in zip(sps, res):
             col.add(vs)
             classes.add((sp['op'], sp['mix'], sp.get('cu') or ref.split_unit(sp['u'])[1], sp['cap'], sp['solvent'], oc))
-        col.count('transitions', len(sps))
-        col.count('traces', len(sps))
-        col.count('evaluations', len(sps))
+        n_recipe = sum(1 for _, oc in res if any(isinstance(x, str) and x.startswith('recipe-') for x in oc))
+        col.count('transitions', len(sps) + n_recipe)
+        col.count('traces', len(sps) + n_recipe)
+        col.count('evaluations', len(sps) + n_recipe)
+        col.count('recipe_variants', n_recipe)
         col.count('states', len(classes))
         col.note_nontrivial({report.digest((v, c)) for c in classes})
         col.cov.setdefault('valuations', []).append({'valuation': v, 'specs': len(sps), 'classes': len(classes),
